@@ -52,8 +52,11 @@ def generate(seed, tier):
         # the kernel refuses one of the requests of B's start-up (flush of SPD / SAD, one of the NEWPOLICYs): "kernel errors surface as
         # errors" - a daemon that goes on into its event loop has treated the refusal as a success
         tb = next(o_['t'] for o_ in sc['ops'] if o_['op'] == 'start' and o_['node'] == 'B')
-        sc['ops'].insert(0, {'t': tb, 'op': 'kerr_boot', 'node': 'B', 'nth': r.randint(1, 2 + 9), 'errno': r.choice(['ENOMEM', 'EINVAL', 'EEXIST', 'EPERM'])})
-        sc['meta']['kerr_boot'] = True
+        nth, err = r.randint(1, 2 + 9), r.choice(['ENOMEM', 'EINVAL', 'EEXIST', 'EPERM'])
+        if tb >= 0.002:
+            # (strictly before the start: operations at one instant may be re-ordered by minimisation / replay)
+            sc['ops'].append({'t': round(tb - 0.001, 4), 'op': 'kerr_boot', 'node': 'B', 'nth': nth, 'errno': err})
+            sc['meta']['kerr_boot'] = True
     sc['ops'].sort(key=lambda x: x['t'])
     if r.random() < 0.2:
         # a peer that proposes, for a new or rekeyed CHILD_SA, an SPI it already uses with us: the kernel refuses the duplicate with a
